@@ -762,10 +762,15 @@ fn parse_line(line: &str) -> Option<(String, usize, DataSpec, Vec<Op>)> {
 
 #[path = "hasher_flm.rs"]
 mod flm;
+#[path = "hasher_cbr.rs"]
+mod cbr;
 
 pub fn run_cmd(args: &Args) {
     if args.rest.first().map(|x| x.as_str()) == Some("flm") {
         return flm::run(args);
+    }
+    if args.rest.first().map(|x| x.as_str()) == Some("cbr") {
+        return cbr::run(args);
     }
     let thorough = args.tier == "thorough";
     let seed = args.seed;
